@@ -267,7 +267,7 @@ _add("C13", "note", "Third-party known findings (jsonpatch cross-container move;
 _add("C08", "text", "Every fifth ordered configuration is what the production worker of annet gen (annet.gen.worker) prints, read back.")
 _add("C16", "text", "What the production worker of annet patch prints (res_diff_patch / _patch_worker) is compared with device mode on the same pair.")
 # ---- round 7
-_add("C01", "text", "Catalogue entry `flat` holds a rule written in the negated form whose next word begins with letters of the negation word (`<Prefix> nx *`).")
+_add("C01", "text", "Catalogue entry `negated-form` holds rules written in the negated form whose next word begins with letters of the negation word (`<Prefix> nx *`, `<Prefix> ox`).")
 _add("C03", "text", "annet diff over several devices: gen_sort_diff is collected first and rendered afterwards (with and without collapsing equal diffs); every device's text is judged as its own diff view.")
 _add("C04", "text", "Forked children (processes that have not formatted anything yet) go through the formatter families in other orders (nokia before juniper, b4com before cisco, ...).")
 _add("C09", "text", "A synthetic deploy rule has dialog lines that differ only in blanks / letter case (each keeps its answer); models that write straight into the running configuration (S-series, H3C, classic IOS, NX-OS, B4T-CS2148P) never get a commit command.")
